@@ -190,5 +190,92 @@ theorem segments_twin (t : Tcb) (hst : t.state = .Established) (hmtu : SPACE_FOR
       src := by rw [m9]; rfl
       dst := by rw [m10]; rfl }
 
+theorem fw_markSent (u : Tcb) (b : Bool) : markSent (fw u) b = fw (markSent u b) := by
+  unfold markSent fw
+  cases b <;> rfl
+
+/-- the same while text REMAINS queued after the loop: the closer emits exactly what its ESTABLISHED twin emits, no FIN -/
+theorem segments_twin_more (t : Tcb) (hst : t.state = .Established) (hmtu : SPACE_FOR_HEADERS < t.mtu.toNat) :
+    ∃ new t1 out, t.segments = .ok (t1, out) ∧ EmitFx t new t1 out ∧
+      (t1.outgoing.text ≠ [] → (fw t).segments = .ok (fw t1, out)) := by
+  have hok3 : C01.Ok3 t.state := by rw [hst]; trivial
+  have hfp : t.finPending = false := C01.Ok3.finPending hok3
+  have hm16 := t.mtu.isLt
+  obtain ⟨u, e, fx⟩ := segmentize_exact (t.mtu.toNat - SPACE_FOR_HEADERS) (by omega)
+    (by show t.mtu.toNat - 50 + 20 ≤ 65535; omega)
+    ((clearOneshot t).outgoing.text.length + 1) (clearOneshot t) (clearOneshot t).outgoing.queuedBytes (by omega)
+  have hlt : ¬ (clearOneshot t).mtu.toNat < SPACE_FOR_HEADERS := by show ¬ t.mtu.toNat < _; omega
+  have hv : segmentizeIfOpen (clearOneshot t) = .ok u := by
+    unfold segmentizeIfOpen
+    have hs' : (clearOneshot t).state = .Established := hst
+    rw [hs']
+    dsimp only
+    rw [if_neg hlt]
+    exact e
+  have hv' : segmentizeIfOpen (clearOneshot (fw t)) = .ok (fw u) := by
+    unfold segmentizeIfOpen
+    have hs' : (clearOneshot (fw t)).state = .FinWait1 := rfl
+    rw [hs']
+    dsimp only
+    have hlt' : ¬ (clearOneshot (fw t)).mtu.toNat < SPACE_FOR_HEADERS := hlt
+    rw [if_neg hlt']
+    have := segmentize_withState .FinWait1 (t.mtu.toNat - SPACE_FOR_HEADERS) ((clearOneshot t).outgoing.text.length + 1)
+      (clearOneshot t) (clearOneshot t).outgoing.queuedBytes
+    rw [e] at this
+    exact this
+  obtain ⟨new, r1, r2, r3, r4⟩ := fx.rtx
+  have hmk : ∀ (w : Tcb) b, (markSent w b).outgoing.retransmit = w.outgoing.retransmit.map (fun x => { x with needsTransmit := false }) ∧
+      (markSent w b).outgoing.oneshot = w.outgoing.oneshot ∧ (markSent w b).outgoing.text = w.outgoing.text ∧
+      (markSent w b).snd = w.snd ∧ (markSent w b).rcv = w.rcv ∧ (markSent w b).incoming = w.incoming ∧
+      (markSent w b).state = w.state ∧ (markSent w b).mtu = w.mtu := by
+    intro w b; unfold markSent; cases b <;> exact ⟨rfl, rfl, rfl, rfl, rfl, rfl, rfl, rfl⟩
+  let outP : List Segment := (t.outgoing.oneshot.map fun h => (⟨h, []⟩ : Segment)) ++
+      (u.outgoing.retransmit.filter (·.needsTransmit)).map (·.segment)
+  obtain ⟨m1, m2, m3, m4, m5, m6, m7, m8⟩ := hmk u outP.isEmpty
+  refine ⟨new, markSent u outP.isEmpty, outP, ?_, ?_, ?_⟩
+  · rw [segments_eq, hv]
+    dsimp only
+    rw [hfp]
+    unfold finIfPending
+    simp only [Bool.false_eq_true, if_false]
+    rfl
+  · exact {
+      flagged := r2
+      bytes := r3
+      run := r4
+      out := by show outP = _; show _ ++ _ = _; rw [r1]; rfl
+      rtx := by rw [m1, r1]; rfl
+      one := by rw [m2, fx.one]; rfl
+      text := by rw [m3, fx.text]; rfl
+      nxt := by rw [m4, fx.nxt]; rfl
+      rcv := by rw [m5, fx.rcv]; rfl
+      inc := by rw [m6, fx.inc]; rfl
+      st := by rw [m7, fx.st]; rfl
+      una := by rw [m4, fx.una]; rfl
+      wnd := by rw [m4, fx.wnd]; rfl
+      mtu := by rw [m8, fx.mtu]; rfl }
+  · intro hmore
+    rw [m3] at hmore
+    have hne : t.outgoing.text ≠ [] := by
+      intro h0
+      apply hmore
+      rw [fx.text]
+      show List.drop _ t.outgoing.text = []
+      rw [h0]; simp
+    have hfp' : (fw t).finPending = true := by
+      rw [finPending_eq]
+      show (closing3 .FinWait1 && !t.outgoing.text.isEmpty) = true
+      cases h : t.outgoing.text with
+      | nil => exact (hne h).elim
+      | cons a l => rfl
+    rw [segments_eq, hv']
+    dsimp only
+    rw [hfp']
+    unfold finIfPending
+    rw [if_pos rfl, (Elvis.Tcp.Fin.queueFin_eq (fw u)).1 hmore]
+    dsimp only
+    show Except.ok (markSent (fw u) outP.isEmpty, outP) = _
+    rw [fw_markSent]
+
 end Tcb
 end Elvis.Tcp
